@@ -96,6 +96,21 @@ pub fn curated() -> Vec<(&'static str, Program)> {
     // it only while the guard in1 is 0 (guard read first)
     add("partial-guarded", vec![n(N, Partial(In(0))), n(N, If(In(1), In(1), C(0)))]);
     add("partial-guarded-firewall", vec![n(F, Partial(In(0))), n(N, If(In(1), In(1), C(0))), n(N, Id(C(1)))]);
+    // a projection over a shallow and a deep firewall branch; the consumer
+    // of the shallow firewall (node 6) is the last node, so "query all,
+    // top-down" asks it first: its only transitive firewall is node 0, whose
+    // backward projection re-runs the projection (4), which re-executes the
+    // combining firewall (2) over a chain of firewalls (1 <- 3) that nobody
+    // has repaired yet
+    add("proj-over-deep-firewalls", vec![
+        n(F, Id(In(0))),            // 0 Front
+        n(F, Id(In(1))),            // 1 Deep
+        n(F, Add(In(0), C(3))),     // 2 Combined (reads in0 first, then Mid)
+        n(F, Id(C(1))),             // 3 Mid (reads Deep)
+        n(P, Add(C(0), C(2))),      // 4 View (reads Front, Combined)
+        n(N, Id(C(4))),             // 5 Screen
+        n(N, Id(C(0))),             // 6 Gauge
+    ]);
     add("proj-cond-consumer", vec![
         n(F, Add(In(0), In(1))),
         n(P, Sat(C(0))),
@@ -347,6 +362,10 @@ pub fn check(property: &'static str) -> i32 {
                         loop {
                             let item = queue.lock().unwrap().pop();
                             let Some((pidx, (name, p))) = item else { break };
+                            // programs with many nodes (large alphabets): one
+                            // step shallower, at least 2
+                            let depth = if p.nodes.len() > 5 { depth.saturating_sub(1).max(2) } else { depth };
+                            let max_states = if p.nodes.len() > 5 { max_states * 3 } else { max_states };
                             match run_program(&p, depth, rich, true, max_states)
                             {
                                 Ok((st, finds)) => {
@@ -491,6 +510,11 @@ pub fn replay(v: &Value) -> i32 {
     let u = &us[v["universe"].as_u64().unwrap() as usize];
     let (name, p) = u.programs[v["program_index"].as_u64().unwrap() as usize].clone();
     let a = hist::alphabet(&p, u.rich);
+    if std::env::var("VH_PRINT_ALPHABET").is_ok() {
+        for (i, o) in a.iter().enumerate() {
+            println!("  [{i}] {}", o.short());
+        }
+    }
     let h: Vec<Op> = v["history_idx"]
         .as_array()
         .unwrap()
